@@ -84,6 +84,9 @@ class Tr5(pyfun_tr.Tr):
             if tl != T_LANG:
                 raise Unsupported('get_config_value_as_bool on %s' % tl)
             return '(lang_use_standard_types %s)' % l, T_BOOL
+        if isinstance(e, ast.Attribute) and e.attr in ('valuetoken_true', 'valuetoken_false') and isinstance(e.value, ast.Name) \
+                and env.get(e.value.id, (None, None))[1] == T_LANG:
+            return '(lang_%s %s)' % (e.attr, env[e.value.id][0]), T_STR
         if (isinstance(e, ast.Subscript) and isinstance(e.value, ast.Attribute) and e.value.attr == 'named_types'
                 and isinstance(e.slice, ast.Constant) and e.slice.value == 'boolean'):
             l, tl = self.expr(e.value.value, env)
@@ -295,7 +298,7 @@ def _isinstance_of(test: ast.expr, var: str) -> typing.Optional[str]:
     return None
 
 
-def literal_branches(fn: ast.FunctionDef) -> typing.Tuple[typing.List[str], typing.List[ast.stmt], typing.List[ast.stmt]]:
+def literal_branches(fn: ast.FunctionDef):
     """filter_literal: (classes tested before IntegerType, body of the IntegerType branch, body of the FloatType branch)."""
     args = [a.arg for a in fn.args.args]
     if args != ['language', 'value', 'ty', 'cast_format']:
@@ -310,7 +313,7 @@ def literal_branches(fn: ast.FunctionDef) -> typing.Tuple[typing.List[str], typi
         if isinstance(n, ast.Name) and isinstance(n.ctx, (ast.Store, ast.Del)) and n.id not in ('cast_format', 'maybe_cast_format'):
             raise Unsupported('filter_literal: the cast_format block assigns %s' % n.id)
     before: typing.List[str] = []
-    int_body = float_body = None
+    int_body = float_body = bool_body = None
     cur: typing.Optional[ast.stmt] = chain
     while isinstance(cur, ast.If):
         c = _isinstance_of(cur.test, 'ty')
@@ -322,15 +325,17 @@ def literal_branches(fn: ast.FunctionDef) -> typing.Tuple[typing.List[str], typi
             float_body = list(cur.body)
         elif int_body is None:
             before.append(c)
+            if c == 'BooleanType' and bool_body is None and len(before) == 1:
+                bool_body = list(cur.body)
         if len(cur.orelse) == 1 and isinstance(cur.orelse[0], ast.If):
             cur = cur.orelse[0]
         else:
             if not (len(cur.orelse) == 1 and isinstance(cur.orelse[0], ast.Raise)):
                 raise Unsupported('filter_literal: the chain does not end in raise')
             cur = None
-    if int_body is None or float_body is None:
-        raise Unsupported('filter_literal: IntegerType / FloatType branch not found')
-    return before, int_body, float_body
+    if int_body is None or float_body is None or bool_body is None:
+        raise Unsupported('filter_literal: BooleanType (first) / IntegerType / FloatType branch not found')
+    return before, int_body, float_body, bool_body
 
 
 # ---------------------------------------------------------------------------------------------------------------------
@@ -374,26 +379,18 @@ def mexp_of(expr: str) -> str:
         if not isinstance(n, ast.Name):
             return '(MSrc SrcOther)'
         path.reverse()
-        key = (n.id in ROOTS, tuple(path))
-        table = {
-            (True, ('extent',)): 'SrcExtent',
-            (True, ('inner_type', 'extent')): 'SrcInnerExtent',
-            (True, ('inner_type', 'bit_length_set', 'max')): 'SrcInnerMax',
-            (True, ('fixed_port_id',)): 'SrcPortId',
-            (True, ('full_name',)): 'SrcFullName',
-            (True, ('version', 'major')): 'SrcMajor',
-            (True, ('version', 'minor')): 'SrcMinor',
-        }
-        if key in table:
-            return '(MSrc %s)' % table[key]
-        if n.id == 'f' and tuple(path) == ('data_type', 'capacity'):
-            return '(MSrc SrcCapacity)'
+        if n.id in ROOTS:
+            return '(MSrc (attr_src true [%s]))' % '; '.join(pyfun_tr._str_lit(x) for x in path)
+        if n.id == 'f':
+            return '(MSrc (attr_src false [%s]))' % '; '.join(pyfun_tr._str_lit(x) for x in path)
         return '(MSrc SrcOther)'
 
     out = conv(node)
     # `t.fields | length` / `composite_type.fields_except_padding | length` (unions have no padding fields)
-    if filters and filters[0] == 'length' and re.fullmatch(r'(t|T|composite_type|type)\.(fields|fields_except_padding)', base):
-        out, filters = '(MSrc SrcFieldCount)', filters[1:]
+    m_len = re.fullmatch(r'(t|T|composite_type|type)\.(\w+)', base)
+    if filters and filters[0] == 'length' and m_len:
+        out = '(MSrc (attr_src true [%s; %s]))' % (pyfun_tr._str_lit(m_len.group(2)), pyfun_tr._str_lit('|length'))
+        filters = filters[1:]
     for f in filters:
         if f == 'bits2bytes_ceil':
             out = '(MB2B %s)' % out
@@ -496,6 +493,39 @@ def emit_rows() -> typing.List[typing.Tuple[str, str, str]]:
     return rows
 
 
+def pieces_of(text: str, roots: typing.Sequence[str]) -> str:
+    """`abc{{ t.x.y }}def` -> [PText "abc"; PAttr ["x"; "y"]; PText "def"]   (root dropped; unknown roots / non-paths fail closed)"""
+    out = []
+    pos = 0
+    for m in re.finditer(r'\{\{\s*(.*?)\s*\}\}', text):
+        if m.start() > pos:
+            out.append('PText %s' % pyfun_tr._str_lit(text[pos:m.start()]))
+        parts = m.group(1).split('.')
+        if parts[0] not in roots or not all(re.fullmatch(r'\w+(\(\))?', x) for x in parts[1:]) or len(parts) < 2:
+            raise Unsupported('template scan: expression %r in a string template' % m.group(1))
+        out.append('PAttr [%s]' % '; '.join(pyfun_tr._str_lit(x) for x in parts[1:]))
+        pos = m.end()
+    if pos < len(text):
+        out.append('PText %s' % pyfun_tr._str_lit(text[pos:]))
+    return '[%s]' % '; '.join(out)
+
+
+def name_and_const_templates() -> str:
+    cdef = _norm_template(gen.read_repo('src/nunavut/lang/c/templates/definitions.j2'))
+    pyb = _norm_template(gen.read_repo('src/nunavut/lang/py/templates/base.j2'))
+    fn = _one(r'#define \{\{ ref \}\}_FULL_NAME_ "(.*?)" ', cdef, 'C _FULL_NAME_ string').group(1)
+    fnv = _one(r'#define \{\{ ref \}\}_FULL_NAME_AND_VERSION_ "(.*?)" ', cdef, 'C _FULL_NAME_AND_VERSION_ string').group(1)
+    m = _one(r'\{%- if c\.data_type is BooleanType %\} \{\{ target \}\} = (.*?) \{%- elif c\.data_type is IntegerType %\} \{\{ target \}\} = (.*?) '
+             r'\{%- elif c\.data_type is FloatType %\} \{\{ target \}\} = (.*?) \{%- else -%\}\{%- assert False -%\} \{%- endif %\}', pyb,
+             'Python class constants')
+    return '\n'.join([
+        'Definition c_full_name_tpl : list piece := %s.' % pieces_of(fn, ROOTS),
+        'Definition c_full_name_and_version_tpl : list piece := %s.' % pieces_of(fnv, ROOTS),
+        'Definition py_bool_const_tpl : list piece := %s.' % pieces_of(m.group(1), ('c',)),
+        'Definition py_int_const_tpl : list piece := %s.' % pieces_of(m.group(2), ('c',)),
+        'Definition py_float_const_tpl : list piece := %s.' % pieces_of(m.group(3), ('c',))])
+
+
 CMP = {'<': 'CmpLt', '<=': 'CmpLe', '>': 'CmpGt', '>=': 'CmpGe'}
 
 
@@ -571,6 +601,7 @@ def scan_templates() -> str:
         'Definition c_capcheck : capcheck :=\n  %s.' % c_cc,
         'Definition cpp_capcheck : capcheck :=\n  %s.' % cpp_cc,
         'Definition c_nested_size_bytes : mexp := %s.' % nested,
+        name_and_const_templates(),
         'Definition emit_table : list emit :=\n  [%s].' % ';\n   '.join(
             '{| em_tgt := %s; em_key := %s; em_conds := %s |}' % r for r in emit_rows())]
     return '\n\n'.join(out)
@@ -635,8 +666,11 @@ def storage_part(jj: ast.Module, cc: ast.Module) -> str:
         cf = cfg.get('options', {}).get('cast_format', cfg.get('cast_format'))
         if not isinstance(cf, str):
             raise Unsupported('properties.yaml: %s cast_format is %r' % (sec, cf))
-        out.append('Definition %s_lang : lang := {| lang_use_standard_types := %s; lang_named_boolean := %s |}.'
-                   % (key, 'true' if ust else 'false', pyfun_tr._str_lit(str(nt['boolean']))))
+        nv = cfg['named_values']
+        out.append('Definition %s_lang : lang := {| lang_use_standard_types := %s; lang_named_boolean := %s;\n'
+                   '  lang_valuetoken_true := %s; lang_valuetoken_false := %s |}.'
+                   % (key, 'true' if ust else 'false', pyfun_tr._str_lit(str(nt['boolean'])), pyfun_tr._str_lit(str(nv['true'])),
+                      pyfun_tr._str_lit(str(nv['false']))))
         out.append('Definition %s_named_float_32 : str := %s.\nDefinition %s_named_float_64 : str := %s.\nDefinition %s_cast_format : str := %s.'
                    % (key, pyfun_tr._str_lit(str(nt['float_32'])), key, pyfun_tr._str_lit(str(nt['float_64'])), key, pyfun_tr._str_lit(cf)))
     return '\n\n'.join(out)
@@ -663,7 +697,8 @@ def gen_c05() -> typing.Tuple[bool, str]:
         parts.append(storage_part(jj, cc))
         fn = pyfun_tr.find_function(cc, None, 'filter_literal')
         _decorators_ok(fn, ('template_language_filter',))
-        before, int_body, float_body = literal_branches(fn)
+        before, int_body, float_body, bool_body = literal_branches(fn)
+        parts.append(translate(fn, 'filter_literal_bool', [('language', T_LANG), ('value', T_BOOL)], T_STR, False, body=bool_body))
         guard = ' && '.join(['negb (py_isinstance ty C_%s)' % c for c in before] + ['py_isinstance ty C_IntegerType'])
         for c in before:
             if c not in PYDSDL_CLASSES:
